@@ -6,6 +6,7 @@ COMMON_ASSUME = [
     "the ckc-facts extractor dumps what rustc holds (consts, ADTs, impls, MIR) without alteration",
     "core library routines behave as their contract models in ckcverif/models.py state",
     "the short composition argument recorded in DESIGN.md section 5 for this property",
+    "calls into the `log` facade (none on the pinned tree) have no effect on values and the installed logger does not panic",
 ]
 
 CHECKS = {}
